@@ -2,6 +2,7 @@ package proxy
 
 import (
 	"context"
+	"errors"
 	"fmt"
 	"io"
 
@@ -109,11 +110,17 @@ type rtAdminClient struct {
 	adminservice.AdminServiceClient
 	src  *rtSource
 	gate chan struct{} // non-nil: opening the stream takes until the gate is released
+	fail bool          // opening the stream fails (the local cluster is unreachable at that moment)
 }
+
+var errRtOpen = errors.New("verif: stream open failed")
 
 func (c *rtAdminClient) StreamWorkflowReplicationMessages(ctx context.Context, opts ...grpc.CallOption) (adminservice.AdminService_StreamWorkflowReplicationMessagesClient, error) {
 	if c.gate != nil {
 		<-c.gate
+	}
+	if c.fail {
+		return nil, errRtOpen
 	}
 	c.src.ctx = ctx
 	c.src.opened = true
